@@ -27,7 +27,9 @@ RULE = ("exhaustive: every DAG on <=4 (quick) / <=5 (thorough) labelled nodes as
         "list and the literal get_independencies() list), variants orig/stable/parallel, return types skeleton/pdag/dag, "
         "max_cond_vars = n, = max degree and too small; random ground-truth DAGs on 6-8 nodes (callable oracle; CPDAG "
         "checked against the specification's enumeration whenever the truth has <= 11 edges), dense 6-7 node truths and "
-        "relabelled copies of the 6-node witnesses of the repaired rule-4 defect; "
+        "relabelled copies of the 6-node witnesses of the repaired rule-4 defect; sessions (one PC object, 2-4 "
+        "estimate() groups with oracles of different ground truths from one factory, variants / return types / "
+        "max_cond_vars / significance levels mixed); "
         "PC.skeleton_to_pdag on random skeletons with random separating sets; PDAG.to_dag on CPDAGs and on arbitrary "
         "PDAGs with extendability decided by brute force.  Every PC output is compared with the model (same orders) and "
         "with the specification's CPDAG / class membership / consistent-extension checker.  A case is non-trivial when "
@@ -134,6 +136,19 @@ def cases(tier, seed):
             if 6 <= len(edges) <= (11 if tier == "quick" else 12):
                 break
         out.append({"kind": "rand", "n": n, "edges": edges, "oseed": rng.randint(0, 10**9), "njobs": 1, "src": "dense"})
+    # sessions: ONE PC object answering several estimate() calls, each with the oracle of a different ground truth
+    nses = 120 if tier == "quick" else 2500
+    for i in range(nses):
+        n = rng.choice([3, 4, 4, 5, 5, 6])
+        k = rng.randint(2, 4)
+        truths = []
+        for _ in range(k):
+            while True:
+                _, edges = common.rand_dag(rng, n, p=rng.choice([0.3, 0.5, 0.7]))
+                if len(edges) <= 11:
+                    break
+            truths.append(edges)
+        out.append({"kind": "session", "n": n, "truths": truths, "oseed": rng.randint(0, 10**9)})
     ns2p = 1500 if tier == "quick" else 12000
     for i in range(ns2p):
         out.append({"kind": "s2p", "n": rng.randint(3, 7), "oseed": rng.randint(0, 10**9)})
@@ -210,14 +225,18 @@ def pdag_arcs(p, idx):
 
 
 def check_pc(est, ci_test, names, idx, n, edges, drv, oracle, maxc, vars_, sord, spec, exact, label, njobs=1,
-             all_nodes=True, light=False):
+             all_nodes=True, light=False, extra_kw=None, only_variants=None):
     """run the three variants x return types on pgmpy, compare with the model (same orders) and, when the oracle is
     exact for this truth (exact=True), with the specification.  Returns None or a bad(...) outcome."""
     truth_skel = uset(edges)
     for vi, variant in enumerate(VARIANTS):
         if light and vi != (len(edges) % 3):
             continue
+        if only_variants is not None and vi not in only_variants:
+            continue
         kw = dict(variant=variant, ci_test=ci_test, max_cond_vars=maxc, show_progress=False, n_jobs=njobs)
+        if extra_kw:
+            kw.update(extra_kw)
         mE, mseps, mp = model_pc(drv, n, edges, oracle, vi, maxc, vars_, sord)
         ctx = {"mode": label, "variant": variant, "maxc": maxc, "vars": vars_, "sord": sord}
         # ---- skeleton
@@ -593,7 +612,58 @@ def run_todag(case, drv):
               tags=["todag src=" + src, "extendable=%s" % ext, "fallback=%s" % bool(fb), "undirected=%d" % len(und)])
 
 
+def make_oracle(g):
+    """factory: every oracle it returns is a plain function with the SAME __name__ (ci), answering by d-separation
+    in its own ground truth"""
+    memo = {}
+
+    def ci(X, Y, Z, **kw):
+        key = (X, frozenset(Z))
+        if key not in memo:
+            memo[key] = g.active_trail_nodes(X, observed=list(Z), include_latents=True)[X]
+        return Y not in memo[key]
+
+    return ci
+
+
+def run_session(case, drv):
+    """one PC(data) object, 2-4 ground truths on the same columns: for each truth the three return types under
+    1-3 variants with that truth's oracle (same factory => same __name__), max_cond_vars and significance_level
+    varied; every answer must be the one for ITS truth (model with the same orders; spec when max_cond_vars is
+    large enough).  The modelled estimate() has no state across calls (coq/C12/Session.v)."""
+    from pgmpy.estimators import PC
+    rng = random.Random(case["oseed"])
+    n = case["n"]
+    names, sord = pick_names(rng, n)
+    idx = {nm: i for i, nm in enumerate(names)}
+    vars_ = list(range(n))
+    rng.shuffle(vars_)
+    est = PC(data=frame([names[i] for i in vars_]))
+    tags = ["session n=%d" % n, "session calls=%d" % len(case["truths"])]
+    for ti, edges in enumerate(case["truths"]):
+        edges = [tuple(e) for e in edges]
+        g = truth_dag(names, n, edges)
+        md = maxdeg(n, edges)
+        maxc = rng.choice([n, n, md, max(md - 1, 0)])
+        exact = maxc >= md
+        spec = None
+        if exact:
+            spec = aset(drv.call("c12_cpdag", [list(range(n)), [list(e) for e in edges]]))
+        sl = rng.choice([0.01, 0.01, 0.05])
+        vs = rng.sample([0, 1, 2], rng.randint(1, 3))
+        b = check_pc(est, make_oracle(g), names, idx, n, edges, drv, 0, maxc, vars_, sord, spec, exact,
+                     "session call-group %d" % ti, extra_kw={"significance_level": sl}, only_variants=vs)
+        if b:
+            b["detail"]["session_truths"] = case["truths"]
+            return b
+        tags.append("session maxc-" + ("exact" if exact else "too-small"))
+    return ok(nontrivial=any(len(t) > 0 for t in case["truths"]), tags=tags,
+              key=common.canon_key(["session", n, case["truths"], vars_, sord]))
+
+
 def run_case(case, drv):
+    if case["kind"] == "session":
+        return run_session(case, drv)
     if case["kind"] in ("exh", "rand"):
         return run_truth(case, drv)
     if case["kind"] == "s2p":
